@@ -227,6 +227,10 @@ In12(mo, mf) == [ts |-> C12Times, ls |-> C12Leads, ss |-> <<LocPool[2], LocPool[
 UC12(u) == {[inp |-> <<In222(a, {}), In222({}, d)>>, clim |-> NoClimGen, opt |-> NoOptions] : a \in {{}, {p \in P222 : p[1] = 1}}, d \in {{}, {<<1, 2, 1>>}}}
       \cup {[inp |-> <<In12(a, {}), In12({}, d)>>, clim |-> NoClimGen, opt |-> NoOptions] : a \in {{}, {<<2, 1, 1>>, <<2, 2, 1>>, <<2, 3, 1>>}}, d \in {{<<5, 1, 2>>}}}
 UC04Quick(u) == {x \in UC04(0) : x.inp[2].mo = {} \/ x.inp[1].mf = {}}
+\* climatology together with an input that borrows its observations
+UC01ClimNoObs(u) == {[inp |-> <<In112(TRUE, a, b), In112(FALSE, {}, d)>>, clim |-> ClimGen(f, m[1], m[2]), opt |-> NoOptions]
+               : a \in SUBSET P112, b \in SUBSET P112, d \in SUBSET P112, f \in SUBSET P112,
+                 m \in {<<"lin", "subtract">>, <<"small", "divide">>}}
 Universe(u) ==
   CASE Family = "C01Full"   -> UC01Full(0)
     [] Family = "C01Quick"  -> UC01Quick(0)
@@ -234,6 +238,7 @@ Universe(u) ==
     [] Family = "C01Three"  -> UC01Three(0)
     [] Family = "C01Clim"   -> UC01Clim(0)
     [] Family = "C01Mid"    -> UC01Mid(0)
+    [] Family = "C01ClimNoObs" -> UC01ClimNoObs(0)
     [] Family = "C18Quick"  -> UC18Quick(0)
     [] Family = "C18One"    -> {[inp |-> <<In212(TRUE, {<<1, 1, 1>>}, {<<1, 1, 2>>}), In212(TRUE, {<<2, 1, 1>>}, {})>>, clim |-> NoClimGen, opt |-> NoOptions]}
     [] Family = "C18Full"   -> UC01Full(0)
